@@ -149,10 +149,14 @@ theorem peek_ok (ts : List Token) : PeekOk ts.length (peekBinary ts) := by
 
 /-! ## the expression parser: the fuel `8 * tokens + d` is enough for every function -/
 
+/-- the token list starts with `|` -/
 def pipeHead : List Token → Bool
   | t :: _ => isP t 124
   | [] => false
 
+/-- fuel `f` is enough for every function of the expression parser on every token list `ts` with
+    `8 * ts.length + d ≤ f` (`d` per function): the result is `Good` (parse error / unsupported / success
+    leaving at most — for the functions that must consume, strictly fewer than — `ts.length` tokens) -/
 structure ExprGood (f : Nat) : Prop where
   expr : ∀ ts, 8 * ts.length + 4 ≤ f → Good (· < ts.length) (parseExpression f ts)
   cond : ∀ c ts, 8 * ts.length + 5 ≤ f → Good (· < ts.length) (parseConditional f c ts)
@@ -450,6 +454,7 @@ theorem exprGood : ∀ f, ExprGood f
 
 /-! ## the expression parser: more fuel never changes a non-fuel result -/
 
+/-- one more unit of fuel: each function either ran out of fuel or returns the same -/
 structure ExprMono (f : Nat) : Prop where
   expr : ∀ ts, Le (parseExpression f ts) (parseExpression (f+1) ts)
   cond : ∀ c ts, Le (parseConditional f c ts) (parseConditional (f+1) c ts)
@@ -629,6 +634,8 @@ theorem Good.error_of {α β} [HasRest α] [HasRest β] {Q P : Nat → Prop} {x 
     (h : Good Q x) (hx : x = .error e) : Good P (.error e : R β) :=
   ⟨(by intro e' h'; cases h'; exact h.1 _ hx), (by intro a h'; cases h')⟩
 
+/-- fuel `f` is enough for every function of the template parser on every token list with
+    `ts.length + 1 ≤ f` (every recursive call is on a strictly shorter list) -/
 structure TplGood (f : Nat) : Prop where
   outer : ∀ ts, ts.length + 1 ≤ f → Good (· ≤ ts.length) (parseOuter f ts)
   tag : ∀ nm ts, ts.length + 1 ≤ f → Good (· ≤ ts.length) (parseTag f nm ts)
@@ -737,6 +744,7 @@ theorem Le.error_of {α} {x y : R α} {e : Err} (h : Le x y) (hx : x = .error e)
   · rw [h] at hx; cases hx; exact .inl rfl
   · rw [← h]; exact .inr hx
 
+/-- one more unit of fuel: each function either ran out of fuel or returns the same -/
 structure TplMono (f : Nat) : Prop where
   outer : ∀ ts, Le (parseOuter f ts) (parseOuter (f+1) ts)
   tag : ∀ nm ts, Le (parseTag f nm ts) (parseTag (f+1) nm ts)
@@ -978,6 +986,552 @@ theorem lexAux_succ : ∀ (f : Nat) (s : Bytes), s.length ≤ f → ∀ m p, lex
 
 theorem lexAux_fuel (s : Bytes) (m p) (f : Nat) (h : s.length ≤ f) : lexAux f m p s = lexAux s.length m p s :=
   fuel_stable (fun f => lexAux f m p s) s.length (fun f hf => lexAux_succ f s hf m p) f h
+
+/-! ## rendering: `Err.fuel` only comes out of a cross-template transfer -/
+
+/-- "not the fuel error" -/
+def NF {α} (x : R α) : Prop := x ≠ .error .fuel
+
+theorem NF.ok {α} (a : α) : NF (.ok a : R α) := by intro h; cases h
+theorem NF.pure {α} (a : α) : NF (Pure.pure a : R α) := by intro h; cases h
+theorem NF.rerr {α} (m : String) : NF (Twig.rerr m : R α) := by intro h; cases h
+theorem NF.unsup {α} (m : String) : NF (Twig.unsup m : R α) := by intro h; cases h
+theorem NF.secErr {α} (m : String) : NF (Twig.secErr m : R α) := by intro h; cases h
+theorem NF.err {α} (c : ErrClass) (l : List Nat) (m : String) : NF (.error (.error c l m) : R α) := by
+  intro h; cases h
+theorem NF.unsupE {α} (m : String) : NF (.error (.unsupported m) : R α) := by intro h; cases h
+
+theorem NF.bind {α β} {x : R α} {g : α → R β} (hx : NF x) (hg : ∀ a, NF (g a)) : NF (x >>= g) := by
+  cases x with
+  | error e => intro h; have h' : (Except.error e : R β) = .error .fuel := h; cases h'; exact hx rfl
+  | ok a => exact hg a
+
+theorem NF.ite {α} {c : Prop} [Decidable c] {x y : R α} (hx : NF x) (hy : NF y) : NF (if c then x else y) := by
+  split
+  · exact hx
+  · exact hy
+
+theorem NF.of_eq {α β} {x : R α} {e : Err} (hx : NF x) (h : x = .error e) : NF (.error e : R β) := by
+  intro h'; cases h'; exact hx h
+
+macro "nf_core" : tactic => `(tactic| first
+  | with_reducible exact NF.ok _
+  | with_reducible exact NF.pure _
+  | with_reducible exact NF.rerr _
+  | with_reducible exact NF.unsup _
+  | with_reducible exact NF.secErr _
+  | with_reducible exact NF.err _ _ _
+  | with_reducible exact NF.unsupE _
+  | assumption
+  | with_reducible refine NF.ite ?_ ?_
+  | (with_reducible refine NF.bind ?_ (fun _ => ?_)))
+
+theorem nf_num (i : Int) : NF (num i) := by unfold num; repeat' first | nf_core | split
+
+theorem nf_toNumber (v : Val) : NF (toNumber v) := by
+  unfold toNumber; repeat' first | nf_core | split
+
+mutual
+theorem nf_fmtV : ∀ v : Val, NF (fmtV v)
+  | .null => by rw [fmtV]; nf_core
+  | .bool _ => by rw [fmtV]; nf_core
+  | .int _ => by rw [fmtV]; nf_core
+  | .str _ => by rw [fmtV]; nf_core
+  | .list xs => by rw [fmtV]; exact NF.bind (nf_fmtVs xs) (fun _ => NF.ok _)
+  | .map kvs => by rw [fmtV]; exact NF.bind (nf_fmtKVs kvs) (fun _ => NF.ok _)
+  | .macro _ _ => by simp only [fmtV]; nf_core
+  | .callable _ _ _ => by simp only [fmtV]; nf_core
+  | .parentFn => by simp only [fmtV]; nf_core
+theorem nf_fmtVs : ∀ vs : List Val, NF (fmtVs vs)
+  | [] => by rw [fmtVs]; nf_core
+  | [x] => by rw [fmtVs]; exact nf_fmtV x
+  | x :: y :: r => by
+    simp only [fmtVs]; exact NF.bind (nf_fmtV x) (fun _ => NF.bind (nf_fmtVs (y :: r)) (fun _ => NF.ok _))
+theorem nf_fmtKVs : ∀ kvs : List (Bytes × Val), NF (fmtKVs kvs)
+  | [] => by rw [fmtKVs]; nf_core
+  | [(k, v)] => by rw [fmtKVs]; exact NF.bind (nf_fmtV v) (fun _ => NF.ok _)
+  | (k, v) :: y :: r => by
+    simp only [fmtKVs]; exact NF.bind (nf_fmtV v) (fun _ => NF.bind (nf_fmtKVs (y :: r)) (fun _ => NF.ok _))
+end
+
+theorem nf_toStr (v : Val) : NF (toStr v) := by
+  unfold toStr; split <;> first | nf_core | exact nf_fmtV _
+
+macro "nf_auto" : tactic => `(tactic| repeat' first
+  | nf_core
+  | with_reducible exact nf_num _
+  | with_reducible exact nf_toNumber _
+  | with_reducible exact nf_toStr _
+  | split)
+
+theorem nf_valEquals (a c : Val) : NF (valEquals a c) := by unfold valEquals; nf_auto
+
+theorem nf_anyM {α} (p : α → R Bool) (hp : ∀ a, NF (p a)) : ∀ l : List α, NF (anyM p l)
+  | [] => by rw [anyM]; nf_core
+  | x :: r => by
+    rw [anyM]; refine NF.bind (hp x) (fun _ => ?_)
+    split
+    · nf_core
+    · exact nf_anyM p hp r
+
+theorem nf_valContains (c i : Val) : NF (valContains c i) := by
+  unfold valContains
+  repeat' first | nf_core | exact nf_toStr _ | exact nf_anyM _ (fun _ => nf_valEquals _ _) _ | split
+
+theorem nf_arith (l r : Val) (f : Int → Int → R Val) (hf : ∀ x y, NF (f x y)) : NF (arith l r f) := by
+  unfold arith; repeat' first | nf_core | exact nf_toNumber _ | exact hf _ _ | split
+
+theorem nf_cmp (l r : Val) (f : Int → Int → Bool) : NF (cmp l r f) := by
+  unfold cmp; nf_auto
+
+theorem nf_binop (op : BinOp) (l r : Val) : NF (binop op l r) := by
+  unfold binop
+  split
+  all_goals first
+    | exact nf_cmp _ _ _
+    | (refine nf_arith _ _ _ (fun _ _ => ?_); nf_auto)
+    | (repeat' first | nf_core | exact nf_num _ | exact nf_toNumber _ | exact nf_toStr _
+                     | exact nf_valEquals _ _ | exact nf_valContains _ _ | split)
+
+theorem nf_toIntV (v : Val) : NF (toIntV v) := by unfold toIntV; nf_auto
+
+theorem nf_mapM' {α β} (f : α → R β) (hf : ∀ a, NF (f a)) : ∀ l : List α, NF (mapM' f l)
+  | [] => by rw [mapM']; nf_core
+  | x :: r => by
+    rw [mapM']; exact NF.bind (hf x) (fun _ => NF.bind (nf_mapM' f hf r) (fun _ => NF.ok _))
+
+theorem nf_runeCount (s : Bytes) : NF (runeCount s) := by unfold runeCount; nf_auto
+
+/-- for the `Option (R _)` tables of built-ins -/
+def NFO {α} (o : Option (R α)) : Prop := ∀ r, o = some r → NF r
+theorem NFO.none {α} : NFO (none : Option (R α)) := by intro r h; cases h
+theorem NFO.some {α} {r : R α} (h : NF r) : NFO (some r) := by intro r' h'; cases h'; exact h
+theorem NFO.ite {α} {c : Prop} [Decidable c] {x y : Option (R α)} (hx : NFO x) (hy : NFO y) :
+    NFO (if c then x else y) := by
+  split
+  · exact hx
+  · exact hy
+
+macro "nf_leaf" : tactic => `(tactic| repeat' first
+  | nf_core
+  | with_reducible exact nf_num _
+  | with_reducible exact nf_toNumber _
+  | with_reducible exact nf_toStr _
+  | with_reducible exact nf_toIntV _
+  | with_reducible exact nf_runeCount _
+  | with_reducible exact nf_mapM' _ nf_toStr _
+  | split)
+
+theorem nf_builtinFilter (n : Bytes) (v : Val) (a : List Val) : NFO (builtinFilter n v a) := by
+  unfold builtinFilter
+  repeat' first | exact NFO.none | refine NFO.ite ?_ ?_ | refine NFO.some ?_
+  all_goals nf_leaf
+
+theorem nf_builtinFunction (n : Bytes) (a : List Val) : NFO (builtinFunction n a) := by
+  unfold builtinFunction
+  repeat' first | exact NFO.none | refine NFO.ite ?_ ?_ | refine NFO.some ?_
+  all_goals nf_leaf
+
+theorem nf_builtinTest (n : Bytes) (v : Val) (a : List Val) : NFO (builtinTest n v a) := by
+  unfold builtinTest
+  repeat' first | exact NFO.none | refine NFO.ite ?_ ?_ | refine NFO.some ?_
+  all_goals nf_leaf
+
+theorem nf_invokeSpy (E : Env) (k n st) : NF (invokeSpy E k n st) := by unfold invokeSpy; nf_leaf
+
+theorem nf_allowedCheck (E : Env) (st a n w) : NF (allowedCheck E st a n w) := by unfold allowedCheck; nf_leaf
+
+theorem nf_applyFilter (E : Env) (n v a st) : NF (applyFilter E n v a st) := by
+  unfold applyFilter
+  repeat' first | nf_core | exact nf_invokeSpy _ _ _ _ | exact nf_builtinFilter _ _ _ _ ‹_› | split
+
+theorem nf_applyChain (E : Env) : ∀ ch v st, NF (applyChain E ch v st)
+  | [], v, st => by rw [applyChain]; nf_core
+  | (n, a) :: r, v, st => by
+    rw [applyChain]; exact NF.bind (nf_applyFilter E n v a st) (fun _ => nf_applyChain E r _ _)
+
+theorem nf_callFunction (E : Env) (n a st) : NF (callFunction E n a st) := by
+  unfold callFunction
+  repeat' first | nf_core | exact nf_invokeSpy _ _ _ _ | exact nf_builtinFunction _ _ _ ‹_› | split
+
+theorem nf_getItem (c i : Val) : NF (getItem c i) := by unfold getItem; nf_leaf
+
+theorem nf_forItems (v : Val) : NF (forItems v) := by unfold forItems; nf_leaf
+
+theorem nf_bindFrom (lib) : ∀ names acc, NF (bindFrom lib names acc)
+  | [], acc => by rw [bindFrom]; nf_core
+  | (m, t) :: r, acc => by
+    rw [bindFrom]; split
+    · exact nf_bindFrom lib r _
+    · nf_core
+
+macro "nf_eval" : tactic => `(tactic| repeat' first
+  | nf_core
+  | with_reducible exact nf_toNumber _
+  | with_reducible exact nf_toStr _
+  | with_reducible exact nf_binop _ _ _
+  | with_reducible exact nf_getItem _ _
+  | with_reducible exact nf_allowedCheck _ _ _ _ _
+  | with_reducible exact nf_applyChain _ _ _ _
+  | with_reducible exact nf_callFunction _ _ _ _
+  | with_reducible exact nf_invokeSpy _ _ _ _
+  | exact nf_builtinTest _ _ _ _ ‹_›
+  | split)
+
+mutual
+theorem nf_evalX (E : Env) : ∀ (ap : Bool) (e : Expr) (st : St), NF (evalX E ap e st)
+  | _, .null, st => by simp only [evalX]; nf_core
+  | _, .bool _, st => by simp only [evalX]; nf_core
+  | _, .int _, st => by simp only [evalX]; nf_core
+  | _, .str _, st => by simp only [evalX]; nf_core
+  | _, .unsup _, st => by simp only [evalX]; nf_core
+  | _, .var n, st => by simp only [evalX]; nf_eval
+  | _, .unary op e, st => by
+    simp only [evalX]
+    refine NF.bind (nf_evalX E true e st) (fun _ => ?_)
+    nf_eval
+  | _, .binary op l r, st => by
+    simp only [evalX]
+    refine NF.bind (nf_evalX E true l st) (fun _ => ?_)
+    refine NF.ite (NF.pure _) (NF.ite (NF.pure _) ?_)
+    refine NF.bind (nf_evalX E true r _) (fun _ => ?_)
+    nf_eval
+  | _, .badBinary l r, st => by
+    simp only [evalX]
+    refine NF.bind (nf_evalX E true l st) (fun _ => ?_)
+    refine NF.bind (nf_evalX E true r _) (fun _ => ?_)
+    nf_eval
+  | _, .cond c t f, st => by
+    simp only [evalX]
+    refine NF.bind (nf_evalX E true c st) (fun _ => ?_)
+    exact NF.ite (nf_evalX E true t _) (nf_evalX E true f _)
+  | _, .attr e name, st => by
+    simp only [evalX]
+    exact NF.bind (nf_evalX E true e st) (fun _ => NF.pure _)
+  | _, .item e i, st => by
+    simp only [evalX]
+    refine NF.bind (nf_evalX E true e st) (fun _ => ?_)
+    refine NF.bind (nf_evalX E true i _) (fun _ => ?_)
+    nf_eval
+  | ap, .filter e name args, st => by
+    simp only [evalX]
+    repeat' first
+      | nf_core
+      | with_reducible exact nf_allowedCheck _ _ _ _ _
+      | with_reducible exact nf_evalArgs E args _
+      | with_reducible exact nf_evalX E false e _
+      | with_reducible exact nf_applyChain _ _ _ _
+      | split
+  | _, .call name args, st => by
+    simp only [evalX]
+    refine NF.bind (nf_allowedCheck _ _ _ _ _) (fun _ => ?_)
+    split
+    · exact NF.bind (nf_evalArgs E args st) (fun _ => NF.pure _)
+    · refine NF.bind (nf_evalArgs E args st) (fun _ => ?_)
+      nf_eval
+  | _, .mcall obj name args, st => by
+    simp only [evalX]
+    refine NF.bind (nf_allowedCheck _ _ _ _ _) (fun _ => ?_)
+    refine NF.bind (nf_evalX E true obj st) (fun _ => ?_)
+    refine NF.bind (nf_evalArgs E args _) (fun _ => ?_)
+    nf_eval
+  | ap, .test e name args, st => by
+    cases e
+    case attr obj a =>
+      simp only [evalX]
+      split
+      · split
+        · nf_core
+        · rename_i heq
+          exact NF.of_eq (nf_evalX E true obj st) heq
+        · nf_eval
+      · refine NF.bind (nf_evalX E true (.attr obj a) st) (fun _ => ?_)
+        refine NF.bind (nf_evalArgs E args _) (fun _ => ?_)
+        nf_eval
+    case var n =>
+      simp only [evalX]
+      split
+      · nf_eval
+      · refine NF.bind ?_ (fun _ => ?_)
+        · nf_eval
+        refine NF.bind (nf_evalArgs E args _) (fun _ => ?_)
+        nf_eval
+    all_goals
+      rw [evalX.eq_18 E ap st _ name args (by intro _ _ hh; cases hh) (by intro _ hh; cases hh)]
+      split
+      · refine NF.bind (nf_evalX E true _ st) (fun _ => ?_)
+        refine NF.bind (nf_evalArgs E args _) (fun _ => ?_)
+        nf_eval
+      · refine NF.bind (nf_evalX E true _ st) (fun _ => ?_)
+        refine NF.bind (nf_evalArgs E args _) (fun _ => ?_)
+        nf_eval
+  | _, .array items, st => by
+    simp only [evalX]
+    exact NF.bind (nf_evalArgs E items st) (fun _ => NF.pure _)
+  | _, .hash items, st => by
+    simp only [evalX]
+    exact NF.bind (nf_evalPairs E items st) (fun _ => NF.pure _)
+
+theorem nf_evalArgs (E : Env) : ∀ (es : List Expr) (st : St), NF (evalArgs E es st)
+  | [], st => by simp only [evalArgs]; nf_core
+  | e :: es, st => by
+    simp only [evalArgs]
+    exact NF.bind (nf_evalX E true e st) (fun _ => NF.bind (nf_evalArgs E es _) (fun _ => NF.pure _))
+
+theorem nf_evalPairs (E : Env) : ∀ (es : List Expr) (st : St), NF (evalPairs E es st)
+  | [], st => by simp only [evalPairs]; nf_core
+  | [_], st => by simp only [evalPairs]; nf_core
+  | k :: v :: es, st => by
+    simp only [evalPairs]
+    refine NF.bind (nf_evalX E true k st) (fun _ => ?_)
+    refine NF.bind (nf_toStr _) (fun _ => ?_)
+    refine NF.bind (nf_evalX E true v _) (fun _ => ?_)
+    exact NF.bind (nf_evalPairs E es _) (fun _ => NF.pure _)
+end
+
+theorem nf_evalExpr (E : Env) (e st) : NF (evalExpr E e st) := by
+  unfold evalExpr; exact NF.bind (nf_evalX E true e st) (fun _ => NF.pure _)
+
+/-! ### rendering one template body: a fuel error can only come out of `go` -/
+
+theorem nf_printVal (go : Go) (hgo : ∀ tr st, NF (go tr st)) (v : Val) (st : St) : NF (printVal go v st) := by
+  unfold printVal
+  split
+  · exact hgo _ _
+  · split
+    · nf_core
+    · dsimp only
+      split
+      · nf_core
+      · exact NF.bind (hgo _ _) (fun _ => NF.pure _)
+  · exact NF.bind (nf_toStr _) (fun _ => NF.pure _)
+
+theorem nf_loopOver (f : St → R Out) (hf : ∀ st, NF (f st)) (kv : Option Bytes) (vv : Bytes) (n : Nat) :
+    ∀ (i : Nat) (items : List (Val × Val)) (st : St), NF (loopOver f kv vv n i items st)
+  | _, [], st => by simp only [loopOver]; nf_core
+  | i, (k, v) :: r, st => by
+    simp only [loopOver]
+    exact NF.bind (hf _) (fun _ => NF.bind (nf_loopOver f hf kv vv n (i+1) r _) (fun _ => NF.pure _))
+
+macro "nf_render" : tactic => `(tactic| repeat' first
+  | nf_core
+  | with_reducible exact nf_toStr _
+  | with_reducible exact nf_evalX _ _ _ _
+  | with_reducible exact nf_evalArgs _ _ _
+  | with_reducible exact nf_forItems _
+  | with_reducible exact nf_bindFrom _ _ _
+  | with_reducible exact nf_applyFilter _ _ _ _ _
+  | split)
+
+section
+variable (E : Env) (go : Go) (hgo : ∀ tr st, NF (go tr st))
+include hgo
+set_option linter.unusedSectionVars false
+
+mutual
+theorem nf_renderNode (tpl : Bytes) : ∀ (n : Node) (st : St), NF (renderNode E go tpl n st)
+  | .text s, st => by simp only [renderNode]; nf_core
+  | .verbatim s, st => by simp only [renderNode]; nf_core
+  | .print e, st => by
+    simp only [renderNode]
+    exact NF.bind (nf_evalX E true e st) (fun _ => nf_printVal go hgo _ _)
+  | .ifN c t e, st => by
+    simp only [renderNode]
+    refine NF.bind (nf_evalX E true c st) (fun _ => ?_)
+    exact NF.ite (nf_renderNodes tpl t _) (nf_renderNodes tpl e _)
+  | .forN key val seq body els, st => by
+    simp only [renderNode]
+    refine NF.bind (nf_evalX E true seq st) (fun _ => ?_)
+    refine NF.bind (nf_forItems _) (fun _ => ?_)
+    split
+    · exact nf_renderNodes tpl els _
+    · exact nf_renderNodes tpl els _
+    · refine NF.bind (nf_loopOver _ (fun s => nf_renderNodes tpl body s) _ _ _ _ _ _) (fun _ => ?_)
+      nf_core
+  | .setN name e, st => by
+    simp only [renderNode]; exact NF.bind (nf_evalX E true e st) (fun _ => NF.pure _)
+  | .doN e, st => by
+    simp only [renderNode]; exact NF.bind (nf_evalX E true e st) (fun _ => NF.pure _)
+  | .block name body, st => by
+    simp only [renderNode]
+    split
+    · nf_core
+    · exact NF.bind (hgo _ _) (fun _ => NF.pure _)
+  | .extends e, st => by
+    simp only [renderNode]
+    repeat' first | nf_core | exact hgo _ _ | exact nf_toStr _ | exact nf_evalX _ _ _ _ | split
+  | .include te names exprs im only sb, st => by
+    simp only [renderNode]
+    repeat' first | nf_core | exact hgo _ _ | exact nf_toStr _ | exact nf_evalX _ _ _ _
+                  | exact nf_evalArgs _ _ _ | split
+  | .macro name _ _ _ _, st => by simp only [renderNode]; nf_core
+  | .importN te alias, st => by
+    simp only [renderNode]
+    repeat' first | nf_core | exact hgo _ _ | exact nf_toStr _ | exact nf_evalX _ _ _ _ | split
+  | .fromN te names, st => by
+    simp only [renderNode]
+    repeat' first | nf_core | exact hgo _ _ | exact nf_toStr _ | exact nf_evalX _ _ _ _
+                  | exact nf_bindFrom _ _ _ | split
+  | .apply filter body, st => by
+    simp only [renderNode]
+    refine NF.bind (nf_renderNodes tpl body st) (fun _ => ?_)
+    refine NF.bind (nf_applyFilter _ _ _ _ _) (fun _ => ?_)
+    exact NF.bind (nf_toStr _) (fun _ => NF.pure _)
+  | .spaceless _, st => by simp only [renderNode]; nf_core
+
+theorem nf_renderNodes (tpl : Bytes) : ∀ (ns : List Node) (st : St), NF (renderNodes E go tpl ns st)
+  | [], st => by simp only [renderNodes]; nf_core
+  | n :: r, st => by
+    simp only [renderNodes]
+    exact NF.bind (nf_renderNode tpl n st) (fun _ => NF.bind (nf_renderNodes tpl r _) (fun _ => NF.pure _))
+end
+
+theorem nf_renderRoot (tpl : Bytes) (st : St) : NF (renderRoot E go tpl st) := by
+  unfold renderRoot
+  split
+  · nf_core
+  · split
+    · exact nf_renderNode E go hgo tpl _ _
+    · exact nf_renderNodes E go hgo tpl _ _
+
+omit hgo in
+theorem nf_bindParams (dn : List Bytes) (de : List Expr) :
+    ∀ (ps : List Bytes) (as : List Val) (st : St) (acc : List (Bytes × Val)), NF (bindParams E dn de ps as st acc)
+  | [], _, st, acc => by simp only [bindParams]; nf_core
+  | p :: ps, a :: as, st, acc => by simp only [bindParams]; exact nf_bindParams dn de ps as st _
+  | p :: ps, [], st, acc => by
+    simp only [bindParams]
+    split
+    · exact NF.bind (nf_evalExpr E _ _) (fun _ => nf_bindParams dn de ps [] _ _)
+    · exact nf_bindParams dn de ps [] st _
+
+theorem nf_callMacro (tpl name : Bytes) (args : List Val) (st : St) : NF (callMacro E go tpl name args st) := by
+  unfold callMacro
+  repeat' first | nf_core | exact hgo _ _ | exact nf_bindParams E _ _ _ _ _ _ | split
+
+end
+
+/-- a fuel error of `run` at level `f+1` is a fuel error of some transfer at level `f` -/
+theorem run_fuel_step (E : Env) (f : Nat) (tr : Transfer) (st : St)
+    (h : run E (f+1) tr st = .error .fuel) : ∃ tr' st', run E f tr' st' = .error .fuel := by
+  apply Classical.byContradiction
+  intro hne
+  have hgo : ∀ tr st, NF (run E f tr st) := fun tr' st' hfu => hne ⟨tr', st', hfu⟩
+  cases tr with
+  | root tpl => exact nf_renderRoot E _ hgo tpl st (by simpa only [run] using h)
+  | body tpl nodes => exact nf_renderNodes E _ hgo tpl nodes st (by simpa only [run] using h)
+  | macroCall tpl name args => exact nf_callMacro E _ hgo tpl name args st (by simpa only [run] using h)
+
+/-! ### more fuel never changes a non-fuel rendering result -/
+
+macro "le_render" hgo:ident : tactic => `(tactic| repeat' first
+  | with_reducible exact Le.refl _
+  | with_reducible exact $hgo _ _
+  | with_reducible refine Le.ite ?_ ?_
+  | (with_reducible refine Le.bind ?_ (fun _ => ?_))
+  | split)
+
+theorem le_printVal {go go' : Go} (hgo : ∀ tr st, Le (go tr st) (go' tr st)) (v : Val) (st : St) :
+    Le (printVal go v st) (printVal go' v st) := by
+  unfold printVal
+  split
+  · exact hgo _ _
+  · split
+    · exact Le.refl _
+    · dsimp only
+      split
+      · exact Le.refl _
+      · exact Le.bind (hgo _ _) (fun _ => Le.refl _)
+  · exact Le.refl _
+
+theorem le_loopOver {f f' : St → R Out} (hf : ∀ st, Le (f st) (f' st)) (kv : Option Bytes) (vv : Bytes) (n : Nat) :
+    ∀ (i : Nat) (items : List (Val × Val)) (st : St),
+      Le (loopOver f kv vv n i items st) (loopOver f' kv vv n i items st)
+  | _, [], st => by simp only [loopOver]; exact Le.refl _
+  | i, (k, v) :: r, st => by
+    simp only [loopOver]
+    exact Le.bind (hf _) (fun _ => Le.bind (le_loopOver hf kv vv n (i+1) r _) (fun _ => Le.refl _))
+
+section
+variable (E : Env) {go go' : Go} (hgo : ∀ tr st, Le (go tr st) (go' tr st))
+include hgo
+set_option linter.unusedSectionVars false
+
+mutual
+theorem le_renderNode (tpl : Bytes) : ∀ (n : Node) (st : St),
+    Le (renderNode E go tpl n st) (renderNode E go' tpl n st)
+  | .text s, st => by simp only [renderNode]; exact Le.refl _
+  | .verbatim s, st => by simp only [renderNode]; exact Le.refl _
+  | .print e, st => by
+    simp only [renderNode]
+    exact Le.bind (Le.refl _) (fun _ => le_printVal hgo _ _)
+  | .ifN c t e, st => by
+    simp only [renderNode]
+    refine Le.bind (Le.refl _) (fun _ => ?_)
+    exact Le.ite (le_renderNodes tpl t _) (le_renderNodes tpl e _)
+  | .forN key val seq body els, st => by
+    simp only [renderNode]
+    refine Le.bind (Le.refl _) (fun _ => ?_)
+    refine Le.bind (Le.refl _) (fun _ => ?_)
+    split
+    · exact le_renderNodes tpl els _
+    · exact le_renderNodes tpl els _
+    · refine Le.bind (le_loopOver (fun s => le_renderNodes tpl body s) _ _ _ _ _ _) (fun _ => ?_)
+      exact Le.refl _
+  | .setN name e, st => by simp only [renderNode]; exact Le.refl _
+  | .doN e, st => by simp only [renderNode]; exact Le.refl _
+  | .block name body, st => by
+    simp only [renderNode]
+    split
+    · exact Le.refl _
+    · exact Le.bind (hgo _ _) (fun _ => Le.refl _)
+  | .extends e, st => by simp only [renderNode]; le_render hgo
+  | .include te names exprs im only sb, st => by simp only [renderNode]; le_render hgo
+  | .macro name _ _ _ _, st => by simp only [renderNode]; exact Le.refl _
+  | .importN te alias, st => by simp only [renderNode]; le_render hgo
+  | .fromN te names, st => by simp only [renderNode]; le_render hgo
+  | .apply filter body, st => by
+    simp only [renderNode]
+    exact Le.bind (le_renderNodes tpl body st) (fun _ => Le.refl _)
+  | .spaceless _, st => by simp only [renderNode]; exact Le.refl _
+
+theorem le_renderNodes (tpl : Bytes) : ∀ (ns : List Node) (st : St),
+    Le (renderNodes E go tpl ns st) (renderNodes E go' tpl ns st)
+  | [], st => by simp only [renderNodes]; exact Le.refl _
+  | n :: r, st => by
+    simp only [renderNodes]
+    exact Le.bind (le_renderNode tpl n st) (fun _ => Le.bind (le_renderNodes tpl r _) (fun _ => Le.refl _))
+end
+
+theorem le_renderRoot (tpl : Bytes) (st : St) : Le (renderRoot E go tpl st) (renderRoot E go' tpl st) := by
+  unfold renderRoot
+  split
+  · exact Le.refl _
+  · split
+    · exact le_renderNode E hgo tpl _ _
+    · exact le_renderNodes E hgo tpl _ _
+
+theorem le_callMacro (tpl name : Bytes) (args : List Val) (st : St) :
+    Le (callMacro E go tpl name args st) (callMacro E go' tpl name args st) := by
+  unfold callMacro
+  le_render hgo
+
+end
+
+theorem run_le (E : Env) : ∀ (f : Nat) (tr : Transfer) (st : St), Le (run E f tr st) (run E (f+1) tr st)
+  | 0, tr, st => by
+    have : run E 0 tr st = .error .fuel := by cases tr <;> rfl
+    rw [this]; exact Le.fuel _
+  | f+1, .root tpl, st => by
+    simp only [run]; exact le_renderRoot E (fun tr st => run_le E f tr st) tpl st
+  | f+1, .body tpl nodes, st => by
+    simp only [run]; exact le_renderNodes E (fun tr st => run_le E f tr st) tpl nodes st
+  | f+1, .macroCall tpl name args, st => by
+    simp only [run]; exact le_callMacro E (fun tr st => run_le E f tr st) tpl name args st
+
+theorem run_stable (E : Env) {f f' : Nat} (h : f ≤ f') (tr : Transfer) (st : St)
+    (hne : run E f tr st ≠ .error .fuel) : run E f' tr st = run E f tr st :=
+  Le.iter (fun k => run E k tr st) (fun k => run_le E k tr st) h hne
 
 end Fuel
 end Twig
